@@ -25,7 +25,7 @@ ASSUMPTIONS = ['a history step "decode a BER variant" is used only when the deco
 SHARDS = {'quick': (16, 150), 'thorough': (16, 4000)}
 BUDGET = {'quick': 100, 'thorough': 1500}
 MIN_NONTRIVIAL = {'quick': 300, 'thorough': 5000}
-CFG = {'long_str_pct': 1, 'any': False, 'real10_pct': 5, 'long_bits_pct': 12}
+CFG = {'long_str_pct': 1, 'any': False, 'real10_pct': 15, 'long_bits_pct': 12}
 
 
 def shards(tier):
@@ -76,10 +76,30 @@ class Tape(object):
 
 def readonly(t, o, T):
     """One read-only use of o."""
-    r = t.int(0, 13)
+    r = t.int(0, 16)
     t.log.append('ro%d' % r)
     try:
-        if r == 0:
+        if r >= 14:
+            # operators and conversions of scalar objects: they hand out new objects (or plain Python values) and leave the
+            # operand as it was
+            k = T['k']
+            if k in ir.STRING_KINDS and k != 'BITSTRING':
+                uses = [lambda: o + b'\xc3\xa9z', lambda: b'q\x00' + o, lambda: o * 2, lambda: o[0:1], lambda: bytes(o), lambda: o.asNumbers(),
+                        lambda: o.asOctets(), lambda: o + o, lambda: hash(o), lambda: o == b'zz', lambda: list(iter(o)), lambda: o.clone(b'zz')]
+            elif k == 'BITSTRING':
+                uses = [lambda: o + o, lambda: o << 3, lambda: o >> 1, lambda: o[0:1], lambda: o.asOctets(), lambda: o.asInteger(), lambda: o.asBinary(),
+                        lambda: hash(o), lambda: o == '101', lambda: o.clone('1')]
+            elif k in ('INTEGER', 'ENUMERATED', 'BOOLEAN'):
+                uses = [lambda: o + 1, lambda: 1 + o, lambda: -o, lambda: int(o), lambda: hash(o), lambda: o == 1, lambda: o < 2, lambda: o.clone(1),
+                        lambda: float(o), lambda: o * 2]
+            elif k == 'OID':
+                uses = [lambda: o + (1,), lambda: (1, 3) + o, lambda: o[0:2], lambda: tuple(o), lambda: hash(o), lambda: o.isPrefixOf(o), lambda: len(o)]
+            elif k == 'REAL':
+                uses = [lambda: o + 1, lambda: o * 2, lambda: float(o), lambda: o == 1, lambda: hash(o), lambda: -o, lambda: abs(o), lambda: o.isInf]
+            else:
+                uses = [lambda: hash(o), lambda: o == o.clone()]
+            uses[t.int(0, len(uses) - 1)]()
+        elif r == 0:
             lib.encode('BER', o)
         elif r == 1:
             lib.encode('BER', o, defMode=False, maxChunkSize=3)
@@ -276,7 +296,14 @@ def construct(t, sch, T, v, depth=0):
         else:
             o[name] = sub
     else:
-        o = sch.clone(build.py_scalar(T, v))
+        pv_ = build.py_scalar(T, v)
+        if k == 'REAL' and isinstance(v, tuple) and t.pct(50):
+            # the same number spelled with an unnormalised mantissa: trailing zeros (base 10) or zero bits (base 2) moved out of
+            # the exponent
+            z = (1, 5, 31, 32, 33, 40, 64, 32, 40)[t.int(0, 8)]
+            pv_ = (v[0] * v[1] ** z, v[1], v[2] - z)
+            t.log.append('respelled')
+        o = sch.clone(pv_)
         if k == 'REAL' and isinstance(v, tuple) and v[1] == 2 and t.pct(35):
             # the documented per-object BER encoding preference of Real; the canonical codecs have no such freedom
             o.binEncBase = (2, 8, 16)[t.int(0, 2)]
